@@ -64,7 +64,9 @@ MC_ACTIONS = {
 
 _COV = re.compile(r"^<(\w+) line \d+, col \d+ to line \d+, col \d+ of module (\w+)(?: \([\d ]+\))?>: (\d+):(\d+)", re.M)
 
-JVM = ["-Xmx4g", "-Xss32m"]
+JVM = ["-Xmx4g", "-Xss32m", "-XX:ParallelGCThreads=4"]
+# short TLC runs (trace batches, edge dumps): C1 only and few GC threads halve their CPU time
+JVM_SHORT = ["-Xmx4g", "-Xss32m", "-XX:TieredStopAtLevel=1", "-XX:ParallelGCThreads=2"]
 
 
 def coverage_of(res) -> dict:
@@ -130,7 +132,9 @@ def run_script(scn: dict) -> tuple[dict, list[dict]]:
 def apply_op(w: cw.World, op: dict) -> str:
     k = op["op"]
     if k == "new":
-        w.new(op["style"], op["nw"], op["nh"])
+        w.new(op["style"], op["nw"], op["nh"], op.get("sub", 0))
+    elif k == "climg":
+        w.clear_images(op["w"], op["now"])
     elif k == "drop":
         w.drop(op["w"])
     elif k == "inval":
@@ -201,7 +205,7 @@ def layout_table(res) -> dict:
 
 def edge_histories(rep: Report, cfg: str, ident: str, styles: list, max_len: int, limit: int | None,
                    seed: int) -> list[dict]:
-    res = tlc.run("UrwidScreen", cfg, workers=1, timeout=600, check=False, jvm=JVM)
+    res = tlc.run("UrwidScreen", cfg, workers=1, timeout=600, check=False, jvm=JVM_SHORT)
     if res.rc != 0 or res.violated:
         raise MachineryError(f"edge dump {cfg} failed:\n" + "\n".join(res.stdout.splitlines()[-30:]))
     g = graph.from_result(res)
@@ -215,7 +219,8 @@ def edge_histories(rep: Report, cfg: str, ident: str, styles: list, max_len: int
     nat = [(4, 3), (2, 2), (4, 2)]
     done = 0
     while wk.remaining and (limit is None or done < limit):
-        ops = [dict(op="new", style=styles[i], nw=nat[i][0], nh=nat[i][1]) for i in range(3)]
+        ops = [dict(op="new", style=styles[i], nw=nat[i][0], nh=nat[i][1], sub=(i + len(scripts)) % 3)
+               for i in range(3)]
         cur = g.inits[0]
         w = cw.World(ident, 8, 5, seed=seed * 100003 + len(scripts))
         try:
@@ -239,6 +244,8 @@ def edge_histories(rep: Report, cfg: str, ident: str, styles: list, max_len: int
                         ops.append(op)
                         apply_op(w, op)
                     op = dict(op=o["op"], lay=lay)
+                elif o["op"] == "climg":
+                    op = dict(op="climg", w=o["arg"]["a"], now=bool(o["arg"]["b"]))
                 else:
                     op = dict(op=o["op"])
                 ops.append(op)
@@ -268,7 +275,7 @@ def edge_histories(rep: Report, cfg: str, ident: str, styles: list, max_len: int
 def alloc_histories(rep: Report, seed: int) -> list[dict]:
     """Replay every edge of the allocator model with real widgets whose fresh indexes end at
     2**31 - 1 (``_ti_next_z_index`` fast-forwarded), following the real pop() choices."""
-    res = tlc.run("UrwidAlloc", "MC_UrwidAlloc_edges.cfg", workers=1, timeout=300, check=False, jvm=JVM)
+    res = tlc.run("UrwidAlloc", "MC_UrwidAlloc_edges.cfg", workers=1, timeout=300, check=False, jvm=JVM_SHORT)
     if res.rc != 0 or res.violated:
         raise MachineryError("allocator edge dump failed:\n" + "\n".join(res.stdout.splitlines()[-30:]))
     g = graph.from_result(res)
@@ -297,7 +304,7 @@ def alloc_histories(rep: Report, seed: int) -> list[dict]:
                 e = g.edges[i]
                 o = e["op"]
                 if o["op"] == "new":
-                    op = dict(op="new", style="kitty", nw=1, nh=1)
+                    op = dict(op="new", style="kitty", nw=1, nh=1, sub=o.get("cls", 0))
                     ops.append(op)
                     wid_before = len(w.meta)
                     apply_op(w, op)
@@ -313,7 +320,7 @@ def alloc_histories(rep: Report, seed: int) -> list[dict]:
                     match = None
                     for j, kt in g.out[cur]:
                         ej = g.edges[j]
-                        if ej["op"]["op"] != "new":
+                        if ej["op"]["op"] != "new" or ej["op"].get("cls", 0) != o.get("cls", 0):
                             continue
                         to = ej["to"]
                         if (ev["exc"] != "") == (ej["op"]["res"] != "") and (
@@ -524,7 +531,7 @@ def random_script(rng: random.Random, ident: str, length: int, *, leaf: bool, ba
         nw, nh = rng.choice([n for n in NATS if n[0] <= cols and n[1] <= rows])
         g.nwid += 1
         g.live[g.nwid] = (style, nw, nh)
-        ops.append(dict(op="new", style=style, nw=nw, nh=nh))
+        ops.append(dict(op="new", style=style, nw=nw, nh=nh, sub=rng.choice([0, 0, 1, 1, 2])))
 
     for _ in range(nlive_target):
         new()
@@ -556,9 +563,19 @@ def random_script(rng: random.Random, ident: str, length: int, *, leaf: bool, ba
             last = lay
         elif x < 0.66 and last is not None:
             ops.append(dict(op="same", lay=last))
-        elif x < 0.72:
+        elif x < 0.70 and last is not None and last["k"] not in ("txt", "img") and wf(last, g.live, cols, rows):
+            # a direct clear_images call, then a NEW canvas of the same (or a slightly changed) layout
+            on = sorted(widgets_of(last))
+            w = rng.choice([0, 0] + on) if on else 0
+            ops.append(dict(op="climg", w=w, now=rng.random() < 0.5))
+            nxt = last if rng.random() < 0.7 else g.mutate(last)
+            if not wf(nxt, g.live, cols, rows):
+                nxt = last
+            ops.append(dict(op="redraw", lay=nxt))
+            last = nxt
+        elif x < 0.74:
             ops.append(dict(op="clear"))
-        elif x < 0.76:
+        elif x < 0.77:
             ops.append(dict(op="stop"))
             started = False
         elif x < 0.84 and g.live:
@@ -590,7 +607,7 @@ def validate(traces: list[dict], name: str, batch: int = 40, parallel: int = 6, 
         f = tlc.write_json(rundir / f"b{i}.json", chunk)
         chunks.append((i, len(chunk)))
         jobs.append(dict(spec="Trace_UrwidScreen", cfg="Trace_UrwidScreen.cfg", workers=2, timeout=timeout,
-                         env={"TRACE_FILE": str(f)}, deadlock=False, jvm=JVM, check=False))
+                         env={"TRACE_FILE": str(f)}, deadlock=False, jvm=JVM_SHORT, check=False))
     try:
         results = tlc.run_many(jobs, parallel=parallel)
     finally:
@@ -611,7 +628,8 @@ def validate(traces: list[dict], name: str, batch: int = 40, parallel: int = 6, 
 
 
 API = {"redraw": "draw_screen", "same": "draw_screen", "bad": "draw_screen", "start": "start", "stop": "stop",
-       "clear": "clear", "new": "UrwidImage", "drop": "UrwidImage.__del__", "inval": "UrwidImage"}
+       "clear": "clear", "new": "UrwidImage", "drop": "UrwidImage.__del__", "inval": "UrwidImage",
+       "clear_images": "clear_images", "clear_images-now": "clear_images"}
 
 MACHINERY = {"bad-layout", "unexpected-output"}
 
@@ -630,9 +648,11 @@ def signature(kind: dict, ident: str) -> str:
         return f"draw_screen:top-level-image-canvas:{v}"
     if kind.get("alias") and v in ("missing", "disguise-unchanged"):
         return f"draw_screen:3-cviews-of-one-widget-gone:{v}"
+    if ctx in ("clear_images", "clear_images-now"):
+        return f"{ctx}:{v}"
     if v in ("cviews-mismatch", "deletes-mismatch", "disguise-unchanged"):
         return f"draw_screen:{ctx}:bookkeeping:{v}"
-    if ctx in ("start", "stop", "clear"):
+    if ctx in ("start", "stop", "clear", "clear_images", "clear_images-now"):
         return f"{ctx}:{v}"
     return f"{api}:{ctx}:{v}"
 
@@ -641,7 +661,7 @@ def judge(rep: Report, items: list[dict], name: str, selftest_too: bool = False)
     if not items:
         return
     verdicts, st, tr = validate([it["trace"] for it in items], name,
-                                batch=25 if rep.tier == "quick" else 40)
+                                batch=32 if rep.tier == "quick" else 40)
     rep.states += st
     rep.transitions += tr
     rep.traces_validated += len(items)
